@@ -156,7 +156,25 @@ def corrupt_session(recs):
     return i
 
 
-SUITES = [("session", corrupt_session), ("frontsderive", corrupt_frontsderive), ("javashapes", corrupt_javashapes), ("todo", corrupt_todo), ("arch", corrupt_arch), ("fronts", corrupt_fronts), ("deps", corrupt_deps),
+def corrupt_evalservice(recs):
+    builtin = {"String", "int", "float", "void", "char", "double"}
+    i = _first(recs, lambda r: any(e["type"] not in builtin for x in r["runs"] for e in x["observed"]["returns"]))
+    for x in recs[i]["runs"]:
+        for e in x["observed"]["returns"]:
+            if e["type"] not in builtin:
+                e["methods"][0] += "Corrupted"          # one listed function under a project return type
+                x["later"] = copy.deepcopy(x["observed"])
+                return i
+    return i
+
+
+def corrupt_todogit(recs):
+    i = _first(recs, lambda r: r["observed"]["details"])
+    recs[i]["observed"]["details"][0]["line"] += 1      # the reported line of one todo
+    return i
+
+
+SUITES = [("session", corrupt_session), ("evalservice", corrupt_evalservice), ("todogit", corrupt_todogit), ("frontsderive", corrupt_frontsderive), ("javashapes", corrupt_javashapes), ("todo", corrupt_todo), ("arch", corrupt_arch), ("fronts", corrupt_fronts), ("deps", corrupt_deps),
           ("badsmell", corrupt_badsmell), ("testsmell", corrupt_testsmell), ("cloc", corrupt_cloc), ("stats", corrupt_stats),
           ("callgraph", corrupt_callgraph), ("springapi", corrupt_springapi), ("javamodel", corrupt_javamodel),
           ("gitlog", corrupt_gitlog), ("rename", corrupt_rename), ("unusedimport", corrupt_unusedimport)]
